@@ -35,6 +35,7 @@ type Obligation struct {
 	Seconds float64
 	Output  string
 	Frame   bool // decided by the frame engine, not by SMT
+	Canary  bool // vacuity canary: the goal is false, the obligation must NOT be discharged
 }
 
 func (o *Obligation) Discharged() bool { return o.Status == "unsat" || o.Status == "trivial" }
